@@ -31,7 +31,7 @@ ASSUMPTIONS = ["an instance is created when its creation request completes (slow
                "with a ticking clock the +-1us boundary classes are widened to +-16us and verdicts inside the band are withheld",
                "real-time cross-check is left to the repository's own three sleep-based tests"]
 FAULT_KINDS = ["preemption", "clock_gap_at_boundary", "clock_tick_between_reads", "expiry"]
-PROBES = ["slow_bptk_factory", "stream_left_open_across_the_deadline", "zero_timeout_instance", "two_creations_together", "batch_of_instances", "two_sweeping_requests_together", "access_concurrent_with_sweep", "due_instance_accessed_during_a_sweep", "slow_release_of_expired_instances", "save_state_between_accesses", "created_via_start_instances", "expired_exactly_at_boundary", "alive_one_us_before_boundary", "restored_from_adapter",
+PROBES = ["access_refused_as_locked_counts", "slow_bptk_factory", "stream_left_open_across_the_deadline", "zero_timeout_instance", "two_creations_together", "batch_of_instances", "two_sweeping_requests_together", "access_concurrent_with_sweep", "due_instance_accessed_during_a_sweep", "slow_release_of_expired_instances", "save_state_between_accesses", "created_via_start_instances", "expired_exactly_at_boundary", "alive_one_us_before_boundary", "restored_from_adapter",
           "refused_after_expiry", "self_access_after_expiry_before_sweep", "swept_by_other_access",
           "swept_by_create", "swept_by_metrics", "keepalive_restore"]
 EXHAUSTIVE = {"quick": False, "thorough": False}
@@ -205,6 +205,12 @@ def generate(spec):
         insts.append(tsec * 10**6)
         last.append(now)
         events.append({"gap_us": rng.choice([0, 10**6]), "op": "access", "inst": k, "kind": "stream_hold"})
+        if rng.random() < 0.5:
+            # a stepping request that is refused because the stream holds the lock is still an instance-scoped request: an access.
+            # The instance is there one time-out minus a little after IT, although the stream was opened longer ago
+            events.append({"gap_us": (tsec * 10**6) // 2, "op": "access", "inst": k, "kind": rng.choice(["run_step", "run_steps"]), "expect_locked": True})
+            events.append({"gap_us": (tsec * 10**6) // 2 + rng.choice([1000, 10**6]), "op": rng.choice(["metrics", "full_metrics"])})
+            events.append({"gap_us": 1000, "op": "access", "inst": k, "kind": "keep_alive"})
         events.append({"gap_us": tsec * 10**6 * rng.choice([1, 1, 4]) + rng.choice([0, 1, 10**6]), "op": rng.choice(["metrics", "full_metrics", "create_other"])})
         if events[-1]["op"] == "create_other":
             events[-1] = {"gap_us": events[-1]["gap_us"], "op": "create", "timeout": {"hours": 1}, "session": False, "via": "single"}
@@ -535,6 +541,11 @@ def execute(case):
                     t0, t1 = box["a0"], box["a1"]       # the access itself happened inside [a0, a1], within the pair's [t0, t1]
                 served = r.status == 200
                 refused = (not served) and isinstance(r.body, dict) and "valid instance" in str(r.body.get("error", ""))
+                if (not served) and isinstance(r.body, dict) and "locked" in str(r.body.get("error", "")):
+                    # refused because another stepping request of this instance is in progress: the request reached the instance,
+                    # it is an access like any other
+                    res.probe("access_refused_as_locked_counts")
+                    served = True
                 certainly_young = (t1 - i.lo) < i.T
                 certainly_old = (t0 - i.hi) >= i.T
                 if wt and not certainly_young and i.state != "gone":
